@@ -18,8 +18,8 @@ ID = 'C11'
 LEVEL = 'exploration'
 TECHNIQUE = 'bounded exhaustive enumeration of shapes x targeted-token subsets x terminal files x parameters, list-based reference editor'
 
-TRACE_WORDS = ['*T*-1', '*', '*U*', '0', '*-2', '*ICH*=3']
-CONS_LABELS = ['NP-SBJ-1', 'S=2', 'VP', 'WHNP-1', 'SBAR-TMP=2-3']
+TRACE_WORDS = ['*T*-1', '*', '*U*', '0', '*-2', '*ICH*=3', '*T*-12', '*EXP*=10-114']
+CONS_LABELS = ['NP-SBJ-1', 'S=2', 'VP', 'WHNP-1', 'SBAR-TMP=2-3', 'WHNP-12', 'NP=10-114']
 TRACE_PARAMS = [{}, {'keepall': True}, {'keep': '*T*'}, {'keep': '*T*,*'}, {'keepall': True, 'keepcoindex': True},
                 {'keep': '*T*,0', 'keepcoindex': True}]
 _counter = itertools.count()
@@ -512,7 +512,7 @@ def run_chunk(chunk):
                         vs, nt = check_punct(mt.to_json(), q)
                         take(vs, nt, ('p', model.shape_str(sh), sub, q))
                     if sub and len(sub) < n:
-                        words = [TRACE_WORDS[i % len(TRACE_WORDS)] if i in sub else 'w%d' % (i + 1) for i in range(n)]
+                        words = [TRACE_WORDS[(i + 3 * len(sub) + sum(sub)) % len(TRACE_WORDS)] if i in sub else 'w%d' % (i + 1) for i in range(n)]
                         pos = ['-NONE-' if i in sub else 'P%d-1' % (i + 1) for i in range(n)]
                         mt = model.MT(1, model.mk_tokens(n, words=words, pos=pos), root)
                         for params in TRACE_PARAMS:
